@@ -725,6 +725,8 @@ def Eq(a, b, tol=TOL):
         return r
     if isinstance(a, bool) or isinstance(b, bool):
         return bool(a) == bool(b)
+    if isinstance(a, int) and isinstance(b, int):
+        return a == b
     if isinstance(a, (int, float)) and isinstance(b, (int, float)):
         return abs(a - b) <= tol * max(1.0, abs(a), abs(b))
     return a == b
